@@ -18,6 +18,7 @@ class Shadow:
         self.dealt = INIT
         self.keys = {}      # key -> (modrev, live)
         self.revs = [INIT]
+        self.snaps = {INIT: []}   # revision -> sorted live keys at that revision (for paging through an old revision)
 
     def write(self, kind, key, exp=0):
         self.dealt += 1
@@ -41,7 +42,32 @@ class Shadow:
                 self.keys[key] = (rev, False)
         if ok:
             self.revs.append(rev)
+        self.snaps[rev] = sorted(k for k, (_, live) in self.keys.items() if live)
         return ok
+
+    def live_at(self, rev):
+        """sorted live keys at revision `rev` (0 = now)"""
+        if rev == 0:
+            rev = self.dealt
+        return self.snaps[max(r for r in self.snaps if r <= rev)]
+
+
+def succ(k):
+    """the bound "just after k": what etcd clients send as the continue key of a paginated list (lastKey + \x00)
+    and as the end of a single-key range [k, k\x00)"""
+    return k + b"\x00"
+
+
+def page_starts(live_sorted, lo, hi, n):
+    """the start keys of a client paging through [lo, hi) with page size n: lo, then lastKey+\x00 of every page that
+    reports more (computed on RAW keys from the predicted snapshot)"""
+    starts, start = [], lo
+    while True:
+        starts.append(start)
+        rest = [k for k in live_sorted if start <= k < hi]
+        if len(rest) <= n:
+            return starts
+        start = succ(rest[n - 1])
 
 
 def cfg_line(engine, **kw):
@@ -107,7 +133,36 @@ def bound_pool(keys):
     return sorted(p for p in pool if p and all(b > 0x24 for b in p))
 
 
-def gen_reads(r, sh, n, keys, lo_rev=None, limits=True):
+def succ_bounds(r, keys, a, b):
+    """one in four ranges starts just after a key (a continued page) and / or ends just after one ([.., k\x00]:
+    the key itself included; [k, k\x00): the single-key range)"""
+    x = r.random()
+    if x < 0.08:
+        k = r.choice(keys)
+        return k, succ(k)
+    if x < 0.17:
+        a = succ(r.choice(keys))
+    elif x < 0.25:
+        b = succ(r.choice(keys))
+    elif x < 0.29:
+        a, b = succ(r.choice(keys)), succ(r.choice(keys))
+    if x < 0.29 and a > b and r.random() < 0.85:
+        a, b = b, a
+    return a, b
+
+
+def gen_pages(r, sh, keys, rev=0, n=None):
+    """a client paging through a range with page size n: list with limit n, then continue from lastKey+\x00 while the
+    page says more — the concatenation must be the unpaginated list (no key twice, none missing), then the unpaginated list"""
+    lo, hi = PREFIX + b"/", PREFIX + b"0"
+    if r.random() < 0.4:
+        lo, hi = sorted([r.choice(keys), r.choice(keys) + b"\xff"])
+    n = n or r.randint(1, 3)
+    lines = ["list %s %s %d %d" % (hx(st), hx(hi), rev, n) for st in page_starts(sh.live_at(rev), lo, hi, n)]
+    return lines + ["list %s %s %d 0" % (hx(lo), hx(hi), rev)]
+
+
+def gen_reads(r, sh, n, keys, lo_rev=None, limits=True, succ_b=False):
     lines = []
     bounds = bound_pool(keys)
     nkeys = len(keys)
@@ -122,12 +177,16 @@ def gen_reads(r, sh, n, keys, lo_rev=None, limits=True):
                 a, b = b, a
             if r.random() < 0.3:
                 a, b = PREFIX + b"/", PREFIX + b"0"
+            if succ_b:
+                a, b = succ_bounds(r, keys, a, b)
             lim = r.randint(0, nkeys + 1) if limits and r.random() < 0.6 else 0
             lines.append("list %s %s %d %d" % (hx(a), hx(b), rev, lim))
         else:
             a, b = r.choice(bounds), r.choice(bounds)
             if a > b:
                 a, b = b, a
+            if succ_b:
+                a, b = succ_bounds(r, keys, a, b)
             lines.append("count %s %s" % (hx(a), hx(b)))
     return lines
 
@@ -204,10 +263,25 @@ def check_reads(case, allow_tombstone_value=False):
     """C03 oracle on the implementation transcript: every get/list/count answered with data must equal
     the MVCC snapshot of the acknowledged writes. Returns (description, signature) or None."""
     ref = Ref()
+    frozen = None      # (line, committed revision) after a refused write without a value: the next `rev` shows it unchanged
     for i, (line, out) in enumerate(zip(case.lines, case.impl)):
         t, o = line.split(), out.split()
         if not t or not o:
             continue
+        if t[0] in ("create", "update") and len(t) > 2 and t[2] == "-":
+            # a write WITHOUT A VALUE: refused on every engine alike before a revision is dealt (/repo f2a549c)
+            if o[:2] != [t[0], "err"]:
+                return ("line %d: %s -> %s: a write without a value was accepted; it must be refused on every engine alike (the key "
+                        "then reads as absent in point reads while range reads list it; TiKV refuses the same request)" % (i + 1, line, out[:120]),
+                        "empty-value-accepted")
+            frozen = (i, ref.committed)
+            continue
+        if t[0] == "rev" and len(o) == 2 and frozen is not None:
+            if int(o[1]) != frozen[1]:
+                return ("line %d: %s -> %s: the refused write without a value of line %d consumed a revision (committed was %d): a "
+                        "refused request must change nothing, and must behave alike on every engine" % (i + 1, line, out, frozen[0] + 1, frozen[1]),
+                        "empty-value-consumed-revision")
+            frozen = None
         ref.feed(line, out)
         if t[0] in ("get", "list", "count") and "err" not in o[:2]:
             rtok = t[2] if t[0] == "get" else (t[3] if t[0] == "list" else "0")
